@@ -167,9 +167,20 @@ func main() {
 			if err := store.Tag(ctx, artifact, tag); err != nil {
 				panic(err)
 			}
-			repo, err = registry.NewOCIRepository(layout, registry.RepositoryOptions{})
+			layoutPath := layout
+			if seq%4 == 3 {
+				// the layout is addressed through a symbolic link (<store>/current -> build-1234): still the same on-disk layout
+				layoutPath = layout + "-current"
+				if err := os.Symlink(filepath.Base(layout), layoutPath); err != nil {
+					panic(err)
+				}
+				defer os.Remove(layoutPath)
+				r.Event("layouts-addressed-through-a-symbolic-link")
+			}
+			repo, err = registry.NewOCIRepository(layoutPath, registry.RepositoryOptions{})
 			if err != nil {
-				panic(err)
+				r.Violation(map[string]string{"kind": "legit-call-failed", "on_disk": "true", "step": "NewOCIRepository"}, fmt.Sprintf("the on-disk layout %s (a directory holding a well-formed layout; addressed through a symbolic link: %v) cannot be opened for signing: %v", layoutPath, layoutPath != layout, err), nil)
+				return
 			}
 		} else {
 			artifact = ocispec.Descriptor{MediaType: ocispec.MediaTypeImageManifest, Digest: digest.FromBytes(content), Size: int64(len(content)), Annotations: copyMap(preAnn)}
@@ -240,6 +251,16 @@ func main() {
 		calls := 1 + rng.Intn(3)
 		var trace []string
 		rs := &recSigner{inner: gs}
+		if seq%5 == 3 {
+			// a plugin-backed signer that was created with a plugin configuration of its own: what it merges for the
+			// plugin is its business, the caller's option map is the caller's
+			ps, err := signer.NewPluginSigner(&lib.HonestSignPlugin{Mode: []string{"raw", "envelope"}[(seq/5)%2], Ent: chain, KeySpecName: "EC-256"}, "key-1", map[string]string{"region": "eu-1", "cfg": "the signer's own"})
+			if err != nil {
+				panic(err)
+			}
+			rs.inner = ps
+			r.Event("sequences-signed-by-a-plugin-backed-signer-with-its-own-configuration")
+		}
 		var sgn notation.Signer = rs
 		if seq%3 == 0 {
 			rs.plugin = map[string]string{"plugin.annotation": "p"}
